@@ -210,6 +210,10 @@ Section Data.
 
   (** the property's strict domain *)
   Record strict_dom : Prop := {
+    sd_ids : forall n n', (exists t, In t G /\ (ts t = n \/ to t = ON n)) ->
+                          (exists t, In t G /\ (ts t = n' \/ to t = ON n')) -> nid n = nid n' -> n = n';
+    sd_names : forall t1 c1 t2 c2, In t1 G -> tp t1 = tau -> to t1 = ON c1 -> In t2 G -> tp t2 = tau -> to t2 = ON c2 ->
+                 shape_name sns (nid c1) = shape_name sns (nid c2) -> nid c1 = nid c2;
     sd_once : NoDup G;
     sd_datatypes : forall t c dt, In t G -> to t = OL c dt ->
                      is_nonliteral_type dt = false /\ dt <> c_NONLITERAL_ELEM_TYPE;
@@ -994,8 +998,11 @@ Section DomB.
 
   Lemma strict_domb_sound : strict_domb = true -> strict_dom tau sns G.
   Proof.
-    unfold strict_domb. rewrite !andb_true_iff. intros [[[[H1 H2] H3] H4] H5].
-    rewrite forallb_forall in H2, H3, H4, H5.
+    unfold C03Dom.strict_domb. rewrite !andb_true_iff. intros [[[[[[H0a H0b] H1] H2] H3] H4] H5].
+    rewrite forallb_forall in H0a, H0b, H2, H3, H4, H5.
+    assert (Hmark : forall n, (exists t, In t G /\ (ts t = n \/ to t = ON n)) -> markedb n = true).
+    { intros n (t & Ht & Hn). specialize (H0a t Ht). apply andb_true_iff in H0a. destruct H0a as [A B].
+      destruct Hn as [<-|Hn]; [exact A | rewrite Hn in B; exact B]. }
     assert (Hpath : forall c inv p, p <> tau ->
               kinds_homog (nl_nbrs tau G c inv p) = true /\ typed_homog (nl_nbrs tau G c inv p) = true).
     { intros c inv p Hp.
@@ -1008,6 +1015,16 @@ Section DomB.
       - rewrite (nl_nbrs_nil c inv p) by tauto. split; reflexivity.
       - rewrite (nl_nbrs_nil c inv p) by tauto. split; reflexivity. }
     constructor.
+    - intros n n' Hn Hn' E. apply Hmark in Hn. apply Hmark in Hn'. unfold markedb in Hn, Hn'.
+      apply Bool.eqb_prop in Hn. apply Bool.eqb_prop in Hn'.
+      destruct n as [k i], n' as [k' i']. cbn in *. subst i'. f_equal. rewrite <- Hn' in Hn.
+      destruct k, k'; cbn in Hn; congruence.
+    - intros t1 c1 t2 c2 Ht1 Hp1 Ho1 Ht2 Hp2 Ho2 E.
+      assert (Hc : forall t cn, In t G -> tp t = tau -> to t = ON cn -> In (nid cn) classes_in).
+      { intros t cn Ht Hp Ho. unfold C03Dom.classes_in. apply in_flat_map. exists t. split; [exact Ht|].
+        rewrite Hp, str_eqb_refl, Ho. left. reflexivity. }
+      specialize (H0b _ (Hc t1 c1 Ht1 Hp1 Ho1)). rewrite forallb_forall in H0b. specialize (H0b _ (Hc t2 c2 Ht2 Hp2 Ho2)).
+      rewrite E, str_eqb_refl in H0b. cbn in H0b. apply str_eqb_eq. exact H0b.
     - apply nodupb_NoDup. exact H1.
     - intros t cc dt Ht Ho. specialize (H2 t Ht). rewrite Ho in H2. apply andb_true_iff in H2.
       destruct H2 as [A B]. apply negb_true_iff in A. apply negb_true_iff in B. apply str_eqb_neq in B. split; assumption.
@@ -1117,7 +1134,8 @@ Section ExactB.
         destruct ck'; [discriminate E|]. exists n'. exact Hin. }
     split; [split|split].
     - intros p m k cd ck n H1 H2 H3. apply (HA' p m k cd ck n H1 H2 H3).
-    - intros p m k cd j n H1 H2 H3 Hp. destruct (HA' p m k cd (CKn j) n H1 H2 H3) as (_ & _ & [E|E]); [contradiction | exact E].
+    - intros p m k cd j n H1 H2 H3 Hp. destruct (HA' p m k cd (CKn j) n H1 H2 H3) as (_ & _ & [E|[n' E]]); [contradiction|].
+      exists m, cd, n'. repeat split; assumption.
     - intros p m k cd ck n H1 H2 H3. apply (HA' p m k cd ck n H1 H2 H3).
     - intros i p k Hi Hpos. rewrite forallb_forall in HB. specialize (HB i Hi). rewrite forallb_forall in HB.
       unfold cntk in Hpos.
